@@ -168,8 +168,11 @@ check('C07',
       'integer-valued count plus fraction within 2^-53 of the exact sum; Phase + Phase and Phase - Phase are within 2^-52 of the exact '
       'result for counts up to 2^51 - 1, negation within 2^-53, results normalised to |frac| <= 1/2 + 2^-50; the add / subtract / negate '
       'branches of the model reduce to exactly these functions; the imaginary-flag and sign rules of from_angles are complex '
-      'multiplication and division (i*i = -1). PARTIAL: multiplication / division by dimensionless numbers, |frac| <= 1/2 exactly at ties, '
-      'abs, floor-division / remainder / divmod, trig-on-fraction and "never decays to a single double" for each operand kind are decided by '
+      'multiplication and division (i*i = -1); astropy two_product (Veltkamp split + Dekker) is error-free without underflow; Phase * number is within 2^-52 of '
+      'the exact product for |product| <= 2^52 - 2; Phase / number (quotient, exact residual, correction quotient) within 2^-52 for |quotient| <= 2^47 and '
+      'divisors in [2^-100, 2^100]; abs(Phase) within 2^-52; the mul / div / abs branches of the model reduce to exactly these functions. '
+      'PARTIAL: |frac| <= 1/2 exactly at ties, floor-division / remainder / divmod, ranges outside those hypotheses, '
+      'trig-on-fraction and "never decays to a single double" for each operand kind are decided by '
       'the correspondence run (every case evaluated by vm_compute on the model and compared BIT FOR BIT with the implementation) and by the '
       'exact-rational monitor (|result - exact| <= 2^-52, normalised, type Phase) on every run.',
       'Trusted: Coq kernel, stdlib FloatAxioms (kernel binary64 = IEEE 754) + real-number axioms through Flocq; astropy two_sum / '
